@@ -490,13 +490,32 @@ func processFile(path, rel, module string, pkgVars map[string]bool, clockRound m
 	// R13: time.NewTimer / time.Timer go through the runtime, which gives the timer
 	// channel either the semantics of Go >= 1.23 or the buffered one-tick channel of
 	// earlier releases (what a main module with an older go line still gets)
+	sleepRewritten := false
 	if tn := timeImportName(f); tn != "" {
+		defer func() {
+			if sleepRewritten {
+				// keep the import used
+				f.Decls = append(f.Decls, &ast.GenDecl{Tok: token.VAR, Specs: []ast.Spec{&ast.ValueSpec{
+					Names: []*ast.Ident{ast.NewIdent("_")},
+					Type:  &ast.SelectorExpr{X: ast.NewIdent(tn), Sel: ast.NewIdent("Duration")},
+				}}})
+			}
+		}()
 		ast.Inspect(f, func(n ast.Node) bool {
 			if se, ok := n.(*ast.SelectorExpr); ok {
 				if id, ok := se.X.(*ast.Ident); ok && id.Name == tn && id.Obj == nil && (se.Sel.Name == "NewTimer" || se.Sel.Name == "Timer" || se.Sel.Name == "AfterFunc") {
 					se.X = ast.NewIdent(rtName)
 					rw.st.Timers++
 					rw.needRT = true
+				}
+				// time.Sleep is a scheduling point (and a sleep that teardown can end), not a
+				// goroutine the simulator has lost sight of for a while
+				if id, ok := se.X.(*ast.Ident); ok && id.Name == tn && id.Obj == nil && se.Sel.Name == "Sleep" {
+					se.X = ast.NewIdent(rtName)
+					se.Sel = ast.NewIdent("TimeSleep")
+					rw.st.Timers++
+					rw.needRT = true
+					sleepRewritten = true
 				}
 			}
 			return true
